@@ -2,10 +2,18 @@ use crate::run::Suite;
 use std::path::Path;
 
 pub mod c21;
+pub mod um;
+pub mod um_model;
+pub mod um_oracle;
 
 pub fn for_property(p: &str) -> Vec<Suite> {
     match p {
         "C21" => c21::suites(),
+        "C01" => vec![um_model::c01_model(), um_oracle::c01_oracle()],
+        "C02" => vec![um_model::c02_model(), um_oracle::c02_oracle()],
+        "C03" => vec![um_model::c03_model(), um_oracle::c03_oracle()],
+        "C04" => vec![um_model::c04_model(), um_oracle::c04_oracle()],
+        "C27" => vec![um_model::c27_model(), um_oracle::c27_oracle()],
         _ => vec![],
     }
 }
